@@ -11,11 +11,11 @@ PATHS = ("docs_for_query", "query.docs", "unlimited", "limited", "unscored", "so
 
 def build_cases(run, rng, nworlds, nqueries, ndocs=(3, 7), depth=2, nletters=2, blocklimit=None,
                 paths=PATHS, scored_only=False, ops=None, storage=None, cmp="members", limits=(1, 2, 3),
-                kinds=None, alt=False):
+                kinds=None, alt=False, qgen=None, maxtoks=5):
     cases, meta = [], []
     for wi in range(nworlds):
         n = rng.randrange(ndocs[0], ndocs[1] + 1)
-        adocs = {"k%d" % i: world.rand_doc(rng, nletters=nletters, boosts=(wi % 3 == 2)) for i in range(n)}
+        adocs = {"k%d" % i: world.rand_doc(rng, nletters=nletters, boosts=(wi % 3 == 2), maxtoks=maxtoks) for i in range(n)}
         plan = world.rand_plan(rng, adocs.keys())
         w = world.World(adocs, plan, storage=storage or rng.choice(["ram", "file"]),
                         blocklimit=blocklimit if blocklimit else rng.choice([None, 1, 2, 3]),
@@ -26,8 +26,8 @@ def build_cases(run, rng, nworlds, nqueries, ndocs=(3, 7), depth=2, nletters=2, 
                 idx = w.abstract_index(s.reader())
                 qs = []
                 for qi in range(nqueries):
-                    aq = world.rand_query(rng, rng.randrange(0, depth + 1), nletters=nletters,
-                                          scored_only=scored_only, ops=ops)
+                    aq = qgen(rng) if qgen else world.rand_query(rng, rng.randrange(0, depth + 1), nletters=nletters,
+                                                                 scored_only=scored_only, ops=ops)
                     q = world.to_query(aq)
                     obs = qobs.obs_paths(s, q, paths, limits=limits, cmp=cmp, alt=alt)
                     if kinds:
@@ -177,6 +177,11 @@ def check(run):
     cases, meta = build_cases(run, rng, 30 if quick else 120, 25 if quick else 40)
     rejects = qobs.judge(run, cases)
     report(run, "C01", cases, meta, rejects, "c01")
+    # span queries (positional constraints): documents with more tokens, so that spans nest and overlap
+    cases, meta = build_cases(run, rng, 10 if quick else 100, 25 if quick else 40, ndocs=(3, 8), maxtoks=8,
+                              qgen=lambda r: world.rand_span_query(r, r.randrange(1, 4)))
+    rejects = qobs.judge(run, cases, name="QueryCheck-spans")
+    report(run, "C01", cases, meta, rejects, "c01-spans")
     cases, meta = big_cases(run, rng, 2 if quick else 12)
     rejects = qobs.judge(run, cases, name="QueryCheck-large", chunk=2)
     report(run, "C01", cases, meta, rejects, "c01-large")
